@@ -33,7 +33,9 @@ FAILED == {<<"!", "failure">>}
 Str(v) == {<<"", v>>}
 NodeByName(cfg, name) == CHOOSE nd \in Range(cfg.nodes) : nd.n = name
 
-\* the reference result of a configuration
+Rendered(qk, qv, x, y) == qk \o "=" \o qv \o ",x=" \o x \o ",y=" \o y        \* node names sort before "x" < "y"
+\* the reference result of a configuration (the input value is the concatenation of the chunks the graph actually receives: a header
+\* chunk that the caller read off the input stream before the call is not part of it)
 Ref(cfg) ==
   LET v == Cat(cfg.in)
       N == cfg.nodes
@@ -60,6 +62,9 @@ Ref(cfg) ==
             \* (keyed output, the only DATA predecessor of END) or c (END only has an execution dependency on it): when c is picked END is
             \* reached with no data at all and the result is the output type's zero value (the empty map) in every paradigm
             [] cfg.shape \in {"eskw", "eskg"} -> IF cfg.pick = "b" THEN {<<"b", v \o M(1) \o M(2)>>} ELSE {}
+            \* fofi: fan-out then fan-in.  a : string -> map {x: v, y: marker} feeds BOTH consumers d and e; d also merges b's {b: v ++ b},
+            \* e also merges c's {c: v ++ c}; a consumer renders its merged input "k=v,..." (keys sorted) under its own key
+            [] cfg.shape = "fofi" -> {<<N[4].n, Rendered(N[2].n, v \o M(2), v, M(1)) \o M(4)>>, <<N[5].n, Rendered(N[3].n, v \o M(3), v, M(1)) \o M(5)>>}
             [] cfg.shape = "branch" -> Str(v \o M(1) \o Mark(NodeByName(cfg, cfg.pick)))
             [] cfg.shape = "keys" -> {<<"out", v \o Cat([i \in 1..Len(N) |-> M(i)])>>}
 
